@@ -12,7 +12,7 @@ LEAVES = ['bool', 'int', 'float', 'str', 'bytes', 'bytearray', 'uuid', 'decimal'
 TOKS = ['uuid', 'decimal', 'path', 'date', 'datetime', 'time', 'timedelta']
 HASHABLE_LEAVES = [l for l in LEAVES if l not in ('bytearray', 'any')]
 CONTEXTS = ['list', 'set', 'frozenset', 'deque', 'tuple2', 'vartuple', 'dictval', 'dictkey', 'defaultdict', 'ordered',
-            'opt', 'union', 'nt', 'td', 'data', 'tagunion']
+            'opt', 'union', 'nt', 'td', 'tdopt', 'data', 'tagunion', 'autotagunion']
 RESERVED = {'o', 'cls', 'field', 'fields', 'i', 'e', 'v1', 'tp', 'result', 'config', 'hooks', 'exclude', 'self',
             'dict_factory', 'asdict', 'paths', 'k', 'v', 'skip_defaults', 'json_key', 'py_field', 'init_kwargs',
             'catch_all', 'field_to_parser', 'json_to_field', 'py_case', 'count', 'index', 'copy', 'field'}
@@ -29,15 +29,22 @@ class Gen:
         self.n += 1
         return self.n
 
-    def word(self):
+    def word(self, ext=False):
         r = self.r
+        if ext:
+            # snake_case words outside the canonical shape: one-letter words, digit-heavy words
+            return ''.join(r.choice(string.ascii_lowercase) for _ in range(r.choice([1, 1, 2, 3, 5]))) + \
+                   ''.join(r.choice(string.digits) for _ in range(r.choice([0, 1, 1, 2])))
         return ''.join(r.choice(string.ascii_lowercase) for _ in range(r.choice([2, 2, 3, 4, 6]))) + \
                ''.join(r.choice(string.digits) for _ in range(r.choice([0, 0, 0, 1, 2])))
 
     def name(self):
+        """canonical snake_case by default; with opts['ext_names'] (a probability) a name from the wider
+        grammar  letter+ digit* ( _ letter+ digit* )*  - e.g. point2_x, utf8_s, a_b1, x"""
+        ext = self.r.random() < self.opts.get('ext_names', 0)
         while True:
-            n = '_'.join(self.word() for _ in range(self.r.choice([1, 2, 2, 3])))
-            if n not in RESERVED and not keyword.iskeyword(n):
+            n = '_'.join(self.word(ext) for _ in range(self.r.choice([1, 2, 2, 3])))
+            if n not in RESERVED and not keyword.iskeyword(n) and len(n) > 1 or (ext and n not in RESERVED and n.isalpha()):
                 return n
 
     def names(self, k):
@@ -64,11 +71,22 @@ class Gen:
             else:
                 vals = self.r.sample(['a', 'b', 'red', 'GREEN', 'x y', '', 'Z', '1'], k)
                 members = [['M%d' % j, {'v': 'str', 'x': v}] for j, v in enumerate(vals)]
-            return {'t': 'enum', 'id': i, 'name': 'E%d' % i, 'mix': mix, 'members': members}
+            nm = 'E%d' % i
+            if self.r.random() < self.opts.get('same_named_enums', 0):
+                nm = self.r.choice(['Status', 'Color'])       # distinct classes sharing a __name__
+            return {'t': 'enum', 'id': i, 'name': nm, 'mix': mix, 'members': members}
         if l == 'literal':
             pool = [{'v': 'int', 'x': '1'}, {'v': 'int', 'x': '-7'}, {'v': 'str', 'x': 'a'}, {'v': 'str', 'x': 'B c'},
                     {'v': 'bool', 'x': True}, {'v': 'none'}, {'v': 'int', 'x': '0'}, {'v': 'str', 'x': ''}]
-            vs = self.r.sample(pool, self.r.choice([1, 2, 3]))
+            c = self.r.random()
+            if c < 0.25:      # members of one numeric type: value lookup alone cannot tell 1 / 1.0 / True apart
+                vs = [{'v': 'int', 'x': str(k)} for k in self.r.sample(range(0, 4), self.r.choice([1, 2, 3]))]
+            elif c < 0.35:
+                vs = self.r.sample([{'v': 'bool', 'x': True}, {'v': 'bool', 'x': False}], self.r.choice([1, 2]))
+            elif c < 0.45:
+                vs = [{'v': 'str', 'x': x} for x in self.r.sample(['a', 'b', '1', 'true', ''], 2)]
+            else:
+                vs = self.r.sample(pool, self.r.choice([1, 2, 3]))
             # members that are == but of different type (1/True, 0/False) make the Literal ambiguous: keep one
             seen, out = set(), []
             for v in vs:
@@ -158,6 +176,24 @@ class Gen:
             i = self.fresh()
             a, b = self.names(2)
             return {'t': 'td', 'id': i, 'name': 'D%d' % i, 'req': [[a, inner]], 'opt': [[b, {'t': 'int'}]]}
+        if ctx == 'tdopt':
+            # the leaf sits at a NON-required key (NotRequired / total=False), Optional where the type allows
+            i = self.fresh()
+            a, b = self.names(2)
+            o = inner if inner['t'] in ('opt', 'none', 'any', 'union') else {'t': 'opt', 'e': inner}
+            return {'t': 'td', 'id': i, 'name': 'D%d' % i, 'req': [[b, {'t': 'int'}]], 'opt': [[a, o]], 'opt_p': 0.9}
+        if ctx == 'autotagunion':
+            # Union of two dataclasses WITHOUT explicit tags; the root Meta sets auto_assign_tags (tag = class name)
+            i, j2 = self.fresh(), self.fresh()
+            a, b, c2 = self.names(3)
+            k1 = {'t': 'data', 'id': i, 'name': 'K%d' % i, 'tag': None, 'auto_tag': True,
+                  'fields': [{'name': a, 'ty': inner, 'alias': None, 'default': None},
+                             {'name': b, 'ty': {'t': 'int'}, 'alias': None, 'default': {'v': 'int', 'x': '3'}}]}
+            k2 = {'t': 'data', 'id': j2, 'name': 'K%d' % j2, 'tag': None, 'auto_tag': True,
+                  'fields': [{'name': c2, 'ty': {'t': 'str'}, 'alias': None, 'default': None}]}
+            es = [k1, k2, {'t': 'int'}]
+            self.r.shuffle(es)
+            return {'t': 'union', 'es': es}
         if ctx == 'tagunion':
             # Union of two tagged dataclasses (dispatch on the tag) and a scalar
             i, j2 = self.fresh(), self.fresh()
@@ -227,7 +263,13 @@ class Gen:
             if ext and r.random() < 0.15:
                 return {'v': 'tok', 'k': k, 'x': r.choice([[1, 1, 1], [9999, 12, 31], [1600, 2, 29]])}
             return {'v': 'tok', 'k': k, 'x': [r.randint(1971, 2090), r.randint(1, 12), r.randint(1, 28)]}
+        # tzinfo zoo: naive, UTC, fixed offsets (positive, negative, named, zero-but-not-named-UTC, sub-minute),
+        # IANA zones (zero offset in winter / one hour in summer, half-hour, always zero)
         tz = r.choice([None, None, 0, 0, 19800, -28800, 3600]) if not self.opts.get('naive_only') else None
+        if self.opts.get('tz_zoo', True) and not self.opts.get('naive_only') and r.random() < 0.35:
+            tz = r.choice([{'off': 0, 'name': 'GMT'}, {'off': 0, 'name': 'WET'}, {'off': 3600, 'name': 'CET'}, {'off': -18000, 'name': 'EST'},
+                           {'zone': 'Europe/London'}, {'zone': 'Africa/Abidjan'}, {'zone': 'Asia/Kolkata'}, {'zone': 'America/St_Johns'},
+                           {'zone': 'UTC'}, {'zone': 'Atlantic/Reykjavik'}, -1800, -45])
         if self.opts.get('odd_offsets') and r.random() < 0.1:
             tz = r.choice([30, 59, -30])
         us = r.choice([0, 0, 1, 500000, 999999])
@@ -296,7 +338,7 @@ class Gen:
         if t == 'nt': return {'v': 'nt', 'id': ty['id'], 'xs': [self.value(f[1], depth + 1) for f in ty['fields']]}
         if t == 'td':
             kvs = [[{'v': 'str', 'x': k}, self.value(ft, depth + 1)] for k, ft in ty['req']]
-            kvs += [[{'v': 'str', 'x': k}, self.value(ft, depth + 1)] for k, ft in ty['opt'] if r.random() < 0.6]
+            kvs += [[{'v': 'str', 'x': k}, self.value(ft, depth + 1)] for k, ft in ty['opt'] if r.random() < ty.get('opt_p', 0.6)]
             return {'v': 'dict', 'k': 'dict', 'kvs': kvs}
         if t == 'data': return {'v': 'inst', 'id': ty['id'], 'xs': [self.value(f['ty'], depth + 1) for f in ty['fields']]}
         raise ValueError(ty)
